@@ -9,53 +9,105 @@
    [announced_equiv]: same addresses (with interface sets) held by the layer-2
    announcer for every Service and same route set on every BGP session. *)
 From Coq Require Import List NArith Bool.
-From Verif Require Import Model.Speaker Proofs.SpeakerP Proofs.SpeakerRefuted.
+From Verif Require Import Model.Speaker Proofs.ElectP Proofs.SpeakerP Proofs.SpeakerRefuted.
 Local Open Scope N_scope.
 
-(* In every reachable state a full re-sync yields exactly the announcements of a fresh speaker *)
+(* In every reachable state a full re-sync yields exactly the announcements of a fresh speaker
+   (the configuration the speaker runs must be free of F9) *)
 Theorem C09_resync_normal_form : forall ev spk h,
-  forallb (event_ok ev) h = true ->
+  forallb esvc_ok h = true ->
+  final_cfg_ok ev (snd (srun ev spk h)) = true ->
   let ws := srun ev spk h in
   announced_equiv (resync ev (fst ws) (snd ws)) (fresh ev (snd ws) (fst ws)).
 Proof. exact resync_normal_form_run. Qed.
 
-(* History independence.  event_ok: no Service with a repeated address; no
-   configuration whose layer-2 advertisements select this node only through
-   interfaces it does not have (F9).  stale_after = false: no first event of a
-   node (which requests no re-sync, F25) happened with Services present
-   without a full re-sync afterwards. *)
+(* History independence, for ALL event histories (Service / endpoint add-update-delete, accepted and
+   refused configurations, node events of this and of other nodes, speaker-list changes, extra
+   re-syncs; handler results honoured as the reconcilers do).  Hypotheses:
+     esvc_ok      no Service with a repeated address;
+     final_cfg_ok F9: the configuration the speaker FINALLY runs does not select this node for layer 2
+                  only through interfaces it does not have (earlier configurations are unconstrained);
+     stale_after  F25: no first event of a node (which requests no re-sync) happened with Services
+                  present without a full re-sync afterwards.
+   Conclusion: the layer-2 announcer entries of every Service, the set of BGP sessions and the route
+   set of every session equal those of a fresh speaker fed the final cluster state. *)
 Theorem C09_history_independent_partial : forall ev spk h,
-  forallb (event_ok ev) h = true ->
+  forallb esvc_ok h = true ->
+  final_cfg_ok ev (snd (srun ev spk h)) = true ->
   stale_after ev ([], sinit spk) false h = false ->
   announced_equiv (snd (srun ev spk h)) (fresh ev (snd (srun ev spk h)) (fst (srun ev spk h))).
-Proof. exact history_independent_partial. Qed.
+Proof. exact history_independent. Qed.
 
-(* F9: without the interface hypothesis the statement is false (old announcement kept) *)
+(* F9: without the hypothesis on the final configuration the statement is false (old announcement kept) *)
 Theorem C09_history_independent_refuted_interfaces :
   exists ev spk h,
-    forallb (fun e => match e with ESvc _ (Some s) => svc_ok s | _ => true end) h = true /\
+    forallb esvc_ok h = true /\
     stale_after ev ([], sinit spk) false h = false /\
+    final_cfg_ok ev (snd (srun ev spk h)) = false /\
     ~ announced_equiv (snd (srun ev spk h)) (fresh ev (snd (srun ev spk h)) (fst (srun ev spk h))).
 Proof.
   exists env_id, (Some [0]), f9_history.
-  destruct f9_refuted as [H1 [H2 [_ [_ H3]]]]. auto.
+  destruct f9_refuted as [H1 [H2 [H3 [_ [_ H4]]]]]. auto.
 Qed.
 
 (* F25: without the hypothesis on first node events the statement is false *)
 Theorem C09_history_independent_refuted_first_node_event :
   exists ev spk h,
-    forallb (event_ok ev) h = true /\
+    forallb esvc_ok h = true /\
+    final_cfg_ok ev (snd (srun ev spk h)) = true /\
     ~ announced_equiv (snd (srun ev spk h)) (fresh ev (snd (srun ev spk h)) (fst (srun ev spk h))).
 Proof.
   exists env_rev, None, f25_history.
-  destruct f25_refuted as [H1 [_ [_ [_ H3]]]]. auto.
+  destruct f25_refuted as [_ [H1 [H2 [_ [_ [_ H3]]]]]]. auto.
 Qed.
+
+(* boundary: esvc_ok is needed too — a Service status that repeats an address makes compareIPs accept
+   [a;a] against the recorded [a;b], and the announcement of b stays (reproduced on the real code) *)
+Theorem C09_history_independent_refuted_repeated_address :
+  exists ev spk h,
+    final_cfg_ok ev (snd (srun ev spk h)) = true /\
+    stale_after ev ([], sinit spk) false h = false /\
+    ~ announced_equiv (snd (srun ev spk h)) (fresh ev (snd (srun ev spk h)) (fst (srun ev spk h))).
+Proof.
+  exists env_id, (Some [0]), dup_history.
+  destruct repeated_address_refuted as [_ [H1 [H2 H3]]]. auto.
+Qed.
+
+(* C04 at reachable states: the announcer holds a Service iff this node wins the election on the
+   CURRENT view (nodes with their conditions / labels, ignore flag, speaker list, advertisements) *)
+Theorem C09_l2_announced_iff_elected : forall ev spk h name,
+  forallb esvc_ok h = true -> final_cfg_ok ev (snd (srun ev spk h)) = true ->
+  stale_after ev ([], sinit spk) false h = false ->
+  let K := fst (srun ev spk h) in let st := snd (srun ev spk h) in
+  s_l2 st name <> None <->
+  exists s ips p, plan (s_cfg st) (klookup K name) = Some (s, ips, p) /\
+                  l2_should ev (s_nodes st) (s_spk st) p s ips = true.
+Proof. exact l2_announced_iff. Qed.
+
+(* several speakers (one per node, same ignore flag and hash) in normal form for the same cluster
+   and sharing configuration, nodes and speaker list: exactly one of them announces a Service that
+   has an eligible node, none otherwise *)
+Theorem C09_one_l2_announcer_among_speakers : forall (evs : N -> env) (sts : N -> sstate) K name s x r p,
+  (forall n, en_me (evs n) = n /\ en_ignore (evs n) = en_ignore (evs 0) /\ en_hash (evs n) = en_hash (evs 0)) ->
+  (forall n, Bk (evs n) (sts n) /\ NF (evs n) K (sts n) /\ cfg_good (evs n) (sts n) /\
+             s_cfg (sts n) = s_cfg (sts 0) /\ s_nodes (sts n) = s_nodes (sts 0) /\ s_spk (sts n) = s_spk (sts 0)) ->
+  plan (s_cfg (sts 0)) (klookup K name) = Some (s, x :: r, p) ->
+  (exists n, eligible (elect_view (evs 0) (s_nodes (sts 0)) (s_spk (sts 0)) p s) n) ->
+  exists w, s_l2 (sts w) name <> None /\ forall n, s_l2 (sts n) name <> None -> n = w.
+Proof. exact one_l2_announcer. Qed.
+
+Theorem C09_no_l2_announcer_without_eligible : forall (evs : N -> env) (sts : N -> sstate) K name s x r p n,
+  en_me (evs n) = n -> Bk (evs n) (sts n) -> NF (evs n) K (sts n) -> cfg_good (evs n) (sts n) ->
+  plan (s_cfg (sts n)) (klookup K name) = Some (s, x :: r, p) ->
+  (forall m, ~ eligible (elect_view (evs n) (s_nodes (sts n)) (s_spk (sts n)) p s) m) ->
+  s_l2 (sts n) name = None.
+Proof. exact no_l2_announcer_without_eligible. Qed.
 
 (* the statement's "in particular": once processed, nothing remains announced for a
    Service that was deleted, is not a LoadBalancer, has no / an invalid address
    or an address outside the configured pools (plan = None) *)
 Theorem C09_nothing_for_gone_service : forall ev spk h name os,
-  forallb (event_ok ev) (h ++ [ESvc name os]) = true ->
+  forallb esvc_ok (h ++ [ESvc name os]) = true ->
   plan (s_cfg (snd (srun ev spk (h ++ [ESvc name os])))) os = None ->
   let st := snd (srun ev spk (h ++ [ESvc name os])) in
   s_l2 st name = None /\ bs_ads (s_bgp st) name = None.
@@ -64,9 +116,9 @@ Proof. exact nothing_for_gone_service. Qed.
 (* ... and a processed Service is announced exactly when the current ShouldAnnounce
    decisions say so, with exactly the prescribed content *)
 Theorem C09_service_normal_form : forall ev name os st,
-  Bk ev st -> cfg_good ev st -> (forall s, os = Some s -> svc_ok s = true) ->
+  Bk ev st -> (forall s, os = Some s -> svc_ok s = true) ->
   nf_name ev (set_balancer ev name os st) name os.
-Proof. intros ev name os st B G H. apply (set_balancer_spec ev name os st B G H). Qed.
+Proof. intros ev name os st B H. apply (set_balancer_spec ev name os st B H). Qed.
 
 (* a configuration that orphans a recorded address changes nothing (and asks for a retry) *)
 Theorem C09_setconfig_refusal : forall ev c st,
